@@ -244,7 +244,7 @@ package core
 // filters, select, render, path, fields, distinct and aggregate are rejected with an
 // error (and no processor) on anything that is not a vertex or an edge.
 //@ func StatementProcessor
-//@   property C01
+//@   property C01 C19
 //@   option load=gripql,gdbi,engine/pipeline,util/protoutil,engine/logic,jsonpath
 //@   requires nonnil: gs != nil && ps != nil
 //@   axiom wireWrapStmt: forall s:*gripql.GraphStatement :: s != nil && isAPtr(s.Statement) ==> ref(s.Statement) != 0
@@ -285,3 +285,73 @@ package core
 //@       dyn(st, "*gripql.GraphStatement_Path") || dyn(st, "*gripql.GraphStatement_Fields") ||
 //@       dyn(st, "*gripql.GraphStatement_Aggregate")) ==> result.1 != nil
 //@   ensures noproc: result.1 != nil && !dyn(st, "*gripql.GraphStatement_EngineCustom") ==> result.0 == nil && ps.LastType == lt0
+// aggregate (C19): two aggregations of one step never share a name (each runs on the
+// channel registered under its name), or the step is rejected
+//@   let aggL = ptr(gs.Statement, "*gripql.GraphStatement_Aggregate").Aggregate.Aggregations
+//@   loop 1 invariant names: forall m :: 0 <= m && m <= rangeindex ==> has(aggs, aggL[m].Name)
+//@   loop 1 invariant distinct: forall p, q :: 0 <= p && p < q && q <= rangeindex ==> aggL[p].Name != aggL[q].Name
+//@   loop 1 invariant bound: rangeindex < len(aggL)
+//@   ensures aggdup: dyn(st, "*gripql.GraphStatement_Aggregate") && result.1 == nil ==>
+//@       (forall p, q :: 0 <= p && p < q && q < len(aggL) ==> aggL[p].Name != aggL[q].Name)
+
+// ---- C19: aggregations ----------------------------------------------------------------
+// Each aggregation runs as its own sequential process reading the channel the
+// dispatcher feeds with every non-signal row (aChans[a.Name], written 'src' below).
+
+// count: one result whose value is the number of rows received.
+//@ func (*aggregate).Process$7
+//@   property C19
+//@   option prelude=trav
+//@   option load=gdbi,gripql
+//@   nopanic
+//@   let src = aChans[a.Name]
+//@   requires fresh: a != nil && aChans != nil && has(aChans, a.Name) && src != nil && out != nil && src != out && rd(src) == 0 && len(src) >= 0 && wr(out) == 0 && !closed(out)
+//@   loop 1 invariant pos: 0 <= rd(src) && rd(src) <= len(src) && wr(out) == 0 && !closed(out)
+//@   loop 1 invariant count: count == rd(src)
+//@   ensures drained: rd(src) == len(src)
+//@   ensures one: wr(out) == 1 && dyn(out[0], "*gdbi.BaseTraveler")
+//@   ensures value: ptr(out[0], "*gdbi.BaseTraveler").Aggregation != nil && ptr(out[0], "*gdbi.BaseTraveler").Aggregation.Name == a.Name &&
+//@       same(ptr(out[0], "*gdbi.BaseTraveler").Aggregation.Value, i2f(len(src)))
+
+// histogram: never panics (also when no value is numeric); only values that convert to
+// a number are collected; every emitted bucket [b, b+i) carries the number of collected
+// values that lie in it.
+//@ func (*aggregate).Process$3
+//@   property C19 C06
+//@   option prelude=trav,json
+//@   option load=gdbi,gripql,jsonpath
+//@   nopanic
+//@   let src = aChans[a.Name]
+//@   requires fresh: a != nil && aChans != nil && has(aChans, a.Name) && src != nil && out != nil && src != out && rd(src) == 0 && len(src) >= 0 && !closed(out) && wr(out) == 0
+//@   requires arm: dyn(a.Aggregation, "*gripql.Aggregate_Histogram") && ptr(a.Aggregation, "*gripql.Aggregate_Histogram") != nil && ptr(a.Aggregation, "*gripql.Aggregate_Histogram").Histogram != nil
+//@   requires items: forall j :: 0 <= j && j < len(src) ==> src[j] != nil
+//@   loop 1 invariant pos: 0 <= rd(src) && rd(src) <= len(src) && !closed(out)
+//@   loop 1 invariant shape: soff(fieldValues) == 0 && len(fieldValues) >= 0 && sref(fieldValues) >= 0 && sref(fieldValues) < alloc && len(fieldValues) <= rd(src)
+//@   loop 1 invariant numeric: forall j :: 0 <= j && j < len(fieldValues) ==> (exists k :: 0 <= k && k < rd(src) &&
+//@       castable(pathLookup(src[k], hagg.Field)) && same(fieldValues[j], castnum(pathLookup(src[k], hagg.Field))))
+//@   loop 2 invariant open: !closed(out) && len(fieldValues) >= 1
+//@   loop 3 invariant bound: rangeindex < len(fieldValues) && !closed(out) && len(fieldValues) >= 1
+//@   loop 3 axiom h0: forall lo:F64, hi:F64 :: same(hcntF(sref(fieldValues), 0, lo, hi), fzero)
+//@   loop 3 axiom hT: forall n, lo:F64, hi:F64 :: 0 <= n && (fieldValues[n] >= lo && fieldValues[n] < hi) ==>
+//@       same(hcntF(sref(fieldValues), n + 1, lo, hi), hcntF(sref(fieldValues), n, lo, hi) + i2f(1))
+//@   loop 3 axiom hF: forall n, lo:F64, hi:F64 :: 0 <= n && !(fieldValues[n] >= lo && fieldValues[n] < hi) ==>
+//@       same(hcntF(sref(fieldValues), n + 1, lo, hi), hcntF(sref(fieldValues), n, lo, hi))
+//@   loop 3 invariant tally: (rangeindex < 0 ==> same(count, fzero)) && (rangeindex >= 0 ==> same(count, hcntF(sref(fieldValues), rangeindex + 1, bucket, bucket + i)))
+//@   ensures drained: rd(src) == len(src)
+
+// term: the whole input is consumed and at most `size` buckets are emitted when a size
+// is given (the buckets are taken from the head of the list sort.SliceStable ordered by
+// decreasing count; the library sort is not modelled).
+//@ func (*aggregate).Process$2
+//@   property C19
+//@   option prelude=trav,json
+//@   option load=gdbi,gripql,jsonpath
+//@   let src = aChans[a.Name]
+//@   requires fresh: a != nil && aChans != nil && has(aChans, a.Name) && src != nil && out != nil && src != out && rd(src) == 0 && len(src) >= 0 && wr(out) == 0 && !closed(out)
+//@   requires arm: dyn(a.Aggregation, "*gripql.Aggregate_Term") && ptr(a.Aggregation, "*gripql.Aggregate_Term") != nil && ptr(a.Aggregation, "*gripql.Aggregate_Term").Term != nil
+//@   requires items: forall j :: 0 <= j && j < len(src) ==> src[j] != nil
+//@   loop 1 invariant pos: 0 <= rd(src) && rd(src) <= len(src) && wr(out) == 0 && !closed(out)
+//@   loop 2 invariant quiet: wr(out) == 0 && !closed(out) && rd(src) == len(src)
+//@   loop 3 invariant sent: wr(out) == rangeindex + 1 && !closed(out) && rd(src) == len(src) && (size > 0 ==> rangeindex < size)
+//@   ensures drained: rd(src) == len(src)
+//@   ensures limit: size > 0 ==> wr(out) <= size
